@@ -13,7 +13,7 @@ var zzFile = "f.star"
 //verif:unwind 40
 func zzH16_lnt() {
 	k := zzParam("k", 2, 2)
-	rows := zzParam("rows", 2, 3) // continuation rows needed per instruction (bound on deltas)
+	rows := zzParam("rows", 2, 2) // continuation rows needed per instruction (bound on deltas)
 	fline, fcol := zzI32("fline"), zzI32("fcol")
 	fn := &Funcode{Pos: syntax.MakePosition(&zzFile, fline, fcol), Name: "f"}
 	fc := &fcomp{fn: fn}
